@@ -60,9 +60,14 @@ def split_args(a):
 
 
 class FS:
-    def __init__(self, root):
+    def __init__(self, root, preload=None):
+        """preload: {relative path: bytes} files that exist (and are durable) below root before the first replayed call"""
         self.root = root; self.files = {}; self.dirs = set(); self.fds = {}
-        self.durable = {}      # path -> bytes durable on disk (content at last sync)
+        if preload:
+            for rel, b in preload.items():
+                self.files[root + rel] = bytearray(b)
+            self._pre = {root + rel: bytes(b) for rel, b in preload.items()}
+        self.durable = dict(getattr(self, "_pre", {}))      # path -> bytes durable on disk (content at last sync)
         self.ops = []          # (index, kind, path, detail) for every mutating call under root
 
     def inroot(self, p):
